@@ -128,6 +128,9 @@ def cipher_cases(tier, rng):
                 yield {'k': 'cipher', 'c': c, 'kp': 'weak', 'hex': w, 'bp': 'rand'}
         for j in range(8 if tier == 'quick' else 64):
             yield {'k': 'cipher', 'c': 'des', 'kp': 'parity', 'bp': 'rand', 'j': j}
+        for c in ('tdea3', 'tdea-s24'):
+            for eqp in ('k1=k2', 'k2=k3', 'k1=k3', 'k1=k2=k3'):
+                yield {'k': 'cipher', 'c': c, 'kp': 'eq', 'eqp': eqp, 'bp': 'rand'}
         for c in ('tf256', 'tf512', 'tf1024'):
             for kw in ('k0', 'kmax', 'kmix'):
                 for tw in ('t0', 'tmax', 'tmix', 'trand'):
@@ -175,6 +178,9 @@ def material(case, rng):
         K = bytes.fromhex(case['hex']) * (kl // 8)
     elif kp == 'parity':
         K = rng.randbytes(kl)
+    elif kp == 'eq':
+        a_, b_ = rng.randbytes(8), rng.randbytes(8)
+        K = {'k1=k2': a_ + a_ + b_, 'k2=k3': a_ + b_ + b_, 'k1=k3': a_ + b_ + a_, 'k1=k2=k3': a_ * 3}[case['eqp']]
     elif kp in ('k0', 'kmax', 'kmix'):
         words = {'k0': [0] * (kl // 8), 'kmax': [2 ** 64 - 1] * (kl // 8)}.get(kp) or [rng.choice([0, 2 ** 64 - 1, 1, 2 ** 63]) for _ in range(kl // 8)]
         K = b''.join(w.to_bytes(8, 'little') for w in words)
@@ -229,7 +235,7 @@ def run(case, ctx, rng):
         K, T, kbits = material(case, rng)
         n = blocklen(c)
         B = block_of(case, rng, n)
-        ctx.cls((c, case.get('kl', 0), case['kp'], case.get('tp', ''), case['bp'], 'bits' if kbits else ''))
+        ctx.cls((c, case.get('kl', 0), case['kp'], case.get('tp', ''), case.get('eqp', ''), case['bp'], 'bits' if kbits else ''))
         det = dict(cipher=c, K=K, T=T, B=B, kbits=kbits)
         obj = call(build, c, K, T, kbits)
         if is_exc(obj):
@@ -242,6 +248,9 @@ def run(case, ctx, rng):
         ctx.eq('dec==standard', d, ref(c, K, T, B, True, kbits), **det)
         if not is_exc(e):
             ctx.check('block-length', isinstance(e, bytes) and len(e) == n, len(e), n, **det)
+        # the same object again, in the other order (a cached schedule must survive both directions)
+        ctx.eq('enc==standard', call(obj.enc, B), ref(c, K, T, B, False, kbits), again_after_dec=True, **det)
+        ctx.eq('dec==standard', call(obj.dec, B), ref(c, K, T, B, True, kbits), again_after_enc=True, **det)
         if case['kp'] == 'parity':
             # keys differing only in the (ignored) parity bits compute the same function
             K2 = bytes(b ^ 1 if (case['j'] >> (i % 6)) & 1 else b for i, b in enumerate(K))
